@@ -110,7 +110,7 @@ def run_case(case, ctx):
     else:
         binner = "bins"
         bdesc = "bins"
-    labelsets = [[0, 1], [0, 1, 2], [-1, 1], [10, 20], [3, 5, 9]]
+    labelsets = [[0, 1], [0, 1, 2], [-1, 1], [10, 20], [3, 5, 9]]      # (predict casts to int32: integer labels only)
     lab = labelsets[rng.randint(len(labelsets))]
     if clf:
         score = X[:, 0] + (X[:, -1] if d > 1 else 0) * 0.7 + rng.randn(n) * 0.3
